@@ -588,9 +588,71 @@ def campaign(ctx):
                 if d:
                     res.disagree("SYS", dict(case, sched=s), m, i, d)
         threads_exploration(ctx, families)
+        handlers_independent(ctx)
     finally:
         if pristine is not None:
             pristine.close()
+
+
+def handlers_independent(ctx):
+    """validators that share no resolver do not see each other's retrieval handlers, nor each other's
+    retrieval failures: handlers given at construction, handlers added to a resolver afterwards,
+    a scheme nobody handles (urllib refuses it: an OSError) — in several orders. The reference for each
+    validator is independent of handlers altogether: the same schema with the document it is entitled
+    to placed in its resolver's store."""
+    res, r = ctx.res, ctx.r
+    V, E = impl.V, impl.E
+    kinds = ["integer", "string", "boolean", "array", "object", "null"]
+    vals = {"integer": 1, "string": "s", "boolean": True, "array": [], "object": {}, "null": None}
+
+    def outcome(v, inst):
+        try:
+            return sorted((list(e.path), e.validator, e.message) for e in v.iter_errors(inst))
+        except E.RefResolutionError:
+            return "RefResolutionError"
+        except Exception as exc:        # noqa: BLE001
+            return "raised:" + type(exc).__name__
+
+    for n in range(ctx.n(12)):
+        tag = r.choice(["d3", "d4", "d6", "d7"])
+        cls = impl.DRAFTS[tag]
+        scheme = r.choice(["vault", "app", "x-priv"])
+        url = "%s://k/doc%d.json" % (scheme, r.randrange(3))
+        ka, kb = r.sample(kinds, 2)
+        doc_a, doc_b = {"defs": {"x": {"type": ka}}}, {"defs": {"x": {"type": kb}}}
+        schema = {"properties": {"a": {"$ref": url + "#/defs/x"}, "b": {"type": "string"}}}
+        inst = {"a": vals[r.choice([ka, kb, r.choice(kinds)])], "b": r.choice([1, "s"])}
+        case = {"cls": tag, "schema": schema, "inst": inst, "doc_a": doc_a, "doc_b": doc_b}
+
+        def entitled(doc):
+            return outcome(cls(schema, resolver=V.RefResolver("", schema, store={url: copy.deepcopy(doc)})), inst)
+        want_a, want_b = entitled(doc_a), entitled(doc_b)
+        res.note(hash(codec.canon(["c18handlers", case])), True, None)
+        _bump(res, "evaluations", 6)
+        # (1) handlers added after construction to each validator's own resolver
+        v1, v2, v3 = cls(schema), cls(schema), cls(schema)
+        v1.resolver.handlers[scheme] = lambda u: copy.deepcopy(doc_a)
+        v2.resolver.handlers[scheme] = lambda u: copy.deepcopy(doc_b)
+        order = [("v1", v1, want_a), ("v2", v2, want_b), ("v3", v3, "RefResolutionError")]
+        r.shuffle(order)
+        for name, v, want in order + order[:1]:
+            got = outcome(v, inst)
+            if got != want:
+                res.fail("handlers:shared-between-resolvers",
+                         "%s (its own resolver, %s) gave %r, entitled to %r" % (name, "no handler for the scheme" if name == "v3" else "its own handler", got, want),
+                         dict(case, order=[o[0] for o in order], who=name))
+                break
+        # (2) nobody handles the scheme for A (urllib refuses: OSError); B brings its own handler at construction
+        a = cls(schema)
+        b = cls(schema, resolver=V.RefResolver.from_schema(schema, id_of=cls.ID_OF, handlers={scheme: lambda u: copy.deepcopy(doc_b)}))
+        first = outcome(a, inst)
+        got = outcome(b, inst)
+        again = outcome(b, inst)
+        if first != "RefResolutionError":
+            res.fail("handlers:unhandled-scheme", "a scheme nobody handles gave %r" % (first,), case)
+        elif got != want_b or again != want_b:
+            res.fail("handlers:failure-remembered-across-resolvers",
+                     "after another validator failed to retrieve %s, a validator with its own handler gave %r / %r, entitled to %r" % (url, got, again, want_b), case)
 
 
 def threads_exploration(ctx, families):
